@@ -428,10 +428,14 @@ fn gen_ip(a: &mut Adv) -> (Vec<u8>, bool) {
                 pl.extend_from_slice(&m);
                 (enc_ip(&p, &dst, P_HBH, 1, &pl), dst.is_multicast())
             } else {
-                let dst = IpAddr::V4([224, 0, 0, 1]);
+                let mut dst = IpAddr::V4([224, 0, 0, 1]);
                 let mut m = vec![0x11, a.tape.draw(256) as u8, 0, 0, 0, 0, 0, 0];
                 if a.tape.draw(2) == 0 {
                     m[4..8].copy_from_slice(&[224, 0, 0, 66]);
+                    // a group-specific query is addressed to the group itself
+                    if a.tape.draw(2) == 0 {
+                        dst = IpAddr::V4([224, 0, 0, 66]);
+                    }
                 }
                 let c = inet_csum(&m, 0);
                 m[2] = (c >> 8) as u8;
